@@ -127,7 +127,7 @@ def run(ctx):
                        "inserted/removed elements, keys with '/', '~', '|', '*'); non-trivial = distinct cases with a non-empty op list / a merge that changes old")
     ctx.assumptions += ["PYTHONHASHSEED=0 (jsonpatch's output depends on it)", "pointer patterns address object paths (array elements are not merge targets)",
                         "documents are re-encoded into tagged form by the driver (no semantics); keys as character sequences"]
-    r = ctx.mc("mc/MC_Json.tla", "mc/MC_Json.cfg" if quick else "mc/MC_Json_thorough.cfg", workers=core.NCPU, timeout=3000)
+    r = ctx.mc("mc/MC_Json.tla", "mc/MC_Json.cfg" if quick else "mc/MC_Json_thorough.cfg", workers=core.NCPU, timeout=4 * 3600)
     if r.violated:
         ctx.reject("mc", "JsonDoc model: %s" % r.violated, {"tlc": r.out[-3000:]}, None)
     recs = []
